@@ -266,8 +266,14 @@ def run(ctx):
                 law(np.array_equal(p1, p2), "same seed, different permutation", case, "random_seed")
             else:
                 a = occ()
-                s = State(list(a))
-                case.update(a=a)
+                kind_i = str(rng.choice(["list", "tuple", "ndarray", "generator"]))
+                src = {"list": list(a), "tuple": tuple(a), "ndarray": np.array(a, dtype=int),
+                       "generator": (x for x in a)}[kind_i]
+                s = State(src)
+                ctx.bucket("state_from_" + kind_i)
+                case.update(a=a, built_from=kind_i)
+                law(s == State(list(a)) and hash(s) == hash(State(list(a))) and [int(x) for x in s.s] == a,
+                    f"State built from a {kind_i} differs from the one built from the list", case, "state_from_iterable")
                 law(s.n_photons == sum(a) and s.n_modes == len(a) == len(s) and list(s) == a, "counts", case, "counts")
         except Exception as e:  # noqa: BLE001
             ctx.violation(f"{op} raised {type(e).__name__}: {e}", case=case, mechanism="raised:" + op, monitor="driver")
